@@ -159,3 +159,16 @@ Fixpoint mrun (m : mstate) (es : list event) (os : list eobs) : mstate :=
   | e :: es', o :: os' => mrun (mstep m e o) es' os'
   | _, _ => m
   end.
+
+(** PeriodicSyncer.writePersistentStateRetrying: the same state is written again
+    until a call returns OK; [faults] = the operation at which each successive
+    attempt fails (0 = that attempt suffers no fault), a fault-free attempt
+    follows when the list is exhausted.  Returns the directory and the number
+    of attempts made. *)
+Fixpoint retry_write (s : dir) (d : Z) (faults : list nat) : dir * nat :=
+  match faults with
+  | [] => (fst (fst (write_call s d 0 false)), 1%nat)
+  | f :: fs =>
+      let '(s', ok, _) := write_call s d f false in
+      if ok then (s', 1%nat) else let '(s'', n) := retry_write s' d fs in (s'', S n)
+  end.
